@@ -444,6 +444,13 @@ def run(chk, db, tier):
     chk.stats["router_blocks"] = len(router.blocks)
     chk.guard("R1", rule_r1, db, model, plist, router, impls)
     chk.guard("R1b", rule_r1_flags, db, model, plist, router)
+    # prerequisite for "whichever addressing style": IP-literal hosts are never handed to the virtual-host parser (decided for C12)
+    from . import c12
+    from ..report import Sub
+    from ..roles import Roles
+    sub = Sub(chk, "C12")
+    sub.rule("R2", "IP guard: the host parser is reached only when neither parse::<SocketAddr> nor parse::<IpAddr> accepts the whole Host value")
+    sub.guard("R2", c12.rule_r2, db, Roles(db))
     chk.rule("R1c", "converse: every Ok path of the router asserts the URI literals (query tag / k=v pattern) and the method/path cell of the operation it returns")
     chk.guard("R1c", rule_r1c, db, model, plist, router)
     chk.guard("R2", rule_r2, plist, router)
